@@ -55,6 +55,7 @@ class Run:
         self.known = load_known(pid)
         self.solver_ms = 0.0
         self.hashes = {}
+        self.global_writes = {}     # shipped back by worker processes
         os.makedirs(os.path.join(VERIF, 'replays', pid), exist_ok=True)
 
     # ---------------------------------------------------------------- recording
@@ -104,7 +105,36 @@ class Run:
         self.engine_errors.append(why)
 
     # ---------------------------------------------------------------- finish
+    def frame_obligation(self):
+        """frame condition behind every per-function analysis: the functions under contract write no module- or
+        class-level state of the repository (pyvc.values.GLOBAL_WRITES logs such writes on every explored path).  A write is
+        not a refutation by itself (a complete-key cache is harmless): the native history search decides; without a failing
+        history the property is undecided, because the analysis in isolation is no longer justified."""
+        from . import values
+        if not values.GLOBAL_OBJS and not self.global_writes:
+            return
+        writes = dict(values.GLOBAL_WRITES)
+        writes.update(self.global_writes)
+        name = '%s/frame/no-module-level-state-is-written' % self.pid
+        fn = 'every function executed under contract'
+        if not writes:
+            self.add(name, 'proved', 'write tracking on every explored path (%d registered containers)' % len(values.GLOBAL_OBJS), 0, fn, kind='frame')
+            return
+        what = 'module-level state written while decoding: %s' % ', '.join(sorted(writes))
+        out = native({'kind': 'history_case'}, timeout=900)
+        if out.get('violates'):
+            self.add(name, 'refuted', 'write tracking + native history search', 0, fn, what, kind='frame')
+            self.violation(name, {'request': {'kind': 'history_case', 'window': out.get('window'), 'order': out.get('order')}, 'native': out,
+                                  'solver_output': what}, True, what=out.get('what', ''))
+        else:
+            self.add(name, 'unknown', 'write tracking', 0, fn, what, kind='frame')
+            self.undecide(name, what + ' (no failing history found: the per-function analysis assumes state-free functions)')
+
     def finish(self, checker_cmd=None):
+        try:
+            self.frame_obligation()
+        except Exception as ex:  # noqa
+            self.engine_error('frame obligation crashed: %r' % (ex,))
         # obligations of an open, listed finding are reported separately (they are proved outside the finding's class
         # by their sibling obligations); the proof count is over everything else
         n = sum(1 for o in self.obligations if o['status'] != 'known-finding')
